@@ -1,6 +1,7 @@
 package main
 
 import (
+	"go/token"
 	"fmt"
 	"go/types"
 	"reflect"
@@ -676,10 +677,38 @@ func (c *Ctx) payloadCodecs() {
 		for _, m := range literalFields(r, "RawMessage") {
 			okLit = len(m["Message"]) == 1 && derivesFrom(m["Message"][0], callResult(modPath+"/boc.Cell.NextRef"), false) && len(m["Mode"]) == 1 && derivesFrom(m["Mode"][0], callResult(modPath+"/boc.Cell.ReadUint"), false)
 		}
+		// a hand-written HashmapE must cover both constructors: hme_empty$0 for no entries (the reader
+		// takes presence bit 1 as "a root cell with a label follows")
+		okEmpty := false
+		for _, b2 := range callsTo(w, modPath+"/boc.Cell.WriteBit") {
+			if v, ok := constBool(b2.Call.Args[1]); ok && !v {
+				for _, ft := range factsAt(w, b2.Block()) {
+					if bo, ok := ft.Cond.(*ssa.BinOp); ok && bo.Op == token.EQL && ft.Truth {
+						if k, ok := constInt(bo.Y); ok && k == 0 {
+							if cl := callOf(bo.X); cl != nil {
+								if bi, ok := cl.Call.Value.(*ssa.Builtin); ok && bi.Name() == "len" {
+									okEmpty = true
+								}
+							}
+						}
+					}
+				}
+			}
+		}
+		// with an empty-case branch there are two WriteBit calls: the presence bit is the one writing true
+		if okEmpty && len(wb) == 2 {
+			okE = false
+			for _, b2 := range wb {
+				if v, ok := constBool(b2.Call.Args[1]); ok && v && b2.Call.Args[0] == ssa.Value(w.Params[1]) {
+					okE = true
+				}
+			}
+		}
+		c.check(okEmpty, R, "PayloadHighload: an empty list is hme_empty (bit 0, no reference)", w.Pos(), "len(p) == 0 -> WriteBit(false)", "PayloadHighload.MarshalTLB writes the presence bit 1 and a reference to an empty cell for an empty message list: HashmapE cannot decode it (a send of zero messages produces an undecodable body)")
 		c.check(fmt.Sprint(ww) == "[8]" && fmt.Sprint(rw) == "[8]" && okHM && okRd && okE && okKey && okLit, R, "PayloadHighload: HashmapE 16 (mode:8 ^message), written as bit 1 + ^dict", w.Pos(), "Hashmap[Uint16,Any] / HashmapE[Uint16,Any]",
 			fmt.Sprintf("PayloadHighload codec sides disagree: widths %v/%v, writer dictionary is Hashmap[Uint16,Any] %v, reader HashmapE[Uint16,Any] %v, present-bit then ref %v, keys are the element index %v, reader fills {Message<-NextRef, Mode<-ReadUint} %v", ww, rw, okHM, okRd, okE, okKey, okLit))
 	}
-	c.floor(R, 4)
+	c.floor(R, 5)
 }
 
 // sendLimitGuard: RawSendV2 refuses more messages than the version allows before it signs anything.
